@@ -81,6 +81,11 @@ CHECKS = {
             "The emitted SQL is interpreted, not diffed: TLC executes every statement of every script on the catalog machine, which flags a table created twice or before a table it references, unknown or untyped columns, missing constraints, and compares the resulting catalog with Expected(version): create(v) must reach Expected(v); create(old) followed by delta(old,new) must leave every table of the new version with exactly its columns, types and keys; delta(v,v) must change nothing. Histories are TLC-generated: up to 4 tables, acyclic foreign keys to keys, plain columns and other foreign keys, composite keys, autoincrement, sized strings, 2-3 edits (add/drop/retype column, add/drop table, toggle key, add/drop reference, toggle autoincrement), tables and columns in shuffled text order, every third history spread over two files.",
             "Postgres semantics are modelled for existence, dependency order and types only; the evidence's state counts are those of the trace-validation runs plus the simulation of DbGen with the CreateIsExact invariant.",
             "DESIGN.md §6 C16"),
+    "C19": ("exploration",
+            "Determinism.tla (a deterministic-function object: the first observation of (generator, option, model) fixes the output) model-checked by TLC; every generator run repeatedly in-process and in two processes on TLC-generated models with several entries per map; every observation validated by TLC (DeterminismTrace.tla)",
+            "Repetition can refute determinism, not prove it; what makes a refutation likely is the input: TLC-generated programs with two or more applications, types, fields, endpoints, parameters and enum items, call graphs, type graphs and chained mixins. About 30 (generator, option) entry points (compile itself, pb text/json/compact/binary, printer, sequence / integration (plain, clustered, endpoint analysis) / data-model diagrams, Mermaid forms, Swagger and OpenAPI 3 in yaml and json, database creation script, relational model) are each run 5 (quick) or 12 (thorough) times per process in 2 processes; TLC replays all observations through the specification's Observe action.",
+            "Generators are called through library entry points; failing generators contribute nothing here (C20); importers are not included.",
+            "DESIGN.md §6 C19"),
 }
 
 PENDING = {}
